@@ -193,7 +193,8 @@ def kernel_files(kd):
             base = shipped_ref()
             wi = list(range(kd["w0"], N_W, kd["wstep"]))[:kd["wn"]]
             pi = list(range(kd["p0"], N_P, kd["pstep"]))
-            head = [repr(float(base.widths[i])) for i in wi]
+            # width labels in the user's own length unit (x10: Angstrom - the labels then cross a power of ten)
+            head = [repr(float(_fmt(base.widths[i] * kd.get("wscale", 1.0)))) for i in wi]
             lines = ["," + ",".join(head)]
             nodes, table = [], []
             for j in pi:
@@ -274,8 +275,9 @@ def weights_of(ref, desc):
 # ---------------------------------------------------------------------------------------------------------------------
 def _user_kernel():
     return st.builds(
-        lambda w0, ws, wn, p0, ps, ls, psc: {"kind": "user", "w0": w0, "wstep": ws, "wn": wn, "p0": p0, "pstep": ps,
-                                             "lscale": ls, "pscale": psc},
+        lambda wsc, w0, ws, wn, p0, ps, ls, psc: {"kind": "user", "w0": w0, "wstep": ws, "wn": wn, "p0": p0, "pstep": ps,
+                                                  "lscale": ls, "pscale": psc, "wscale": wsc},
+        st.sampled_from([1.0, 1.0, 10.0, 2.5]),
         st.integers(0, 20), st.integers(1, 4), st.integers(5, N_W), st.integers(0, 3), st.integers(1, 4),
         st.sampled_from([0.25, 0.5, 1.0, 2.0, 4.0]) | st.floats(0.25, 4.0).map(lambda v: round(v, 4)),
         st.sampled_from([0.5, 1.0, 2.0]) | st.floats(0.5, 2.0).map(lambda v: round(v, 4)))
